@@ -15,7 +15,7 @@ Definition decl_right (decl : str -> varinfo) (always by_prefs : str -> bool) : 
     (vi_always_in_scope (decl v) && vi_defined_if_in_scope (decl v) = true -> always v = true) /\
     (vi_use_loadtime (decl v) && vi_defined_if_in_scope (decl v) = true -> by_prefs v = true).
 
-Definition sure0 : sure := mksure false [] [].
+Definition sure0 : sure := mksure false [] [] [].
 
 (* ---------- the scan of the model against the spec's reading, line by line ---------- *)
 
@@ -32,7 +32,7 @@ Lemma scan_line_inv st s l :
   (match l with FInclude p => negb (executed_for_sure s) && really_loads_prefs p | _ => false end) = false ->
   scan_inv (scan_line st l) (sure_step s l).
 Proof.
-  intros (Hl & Hp & Hd) Hc. destruct l as [p|v|g| |]; unfold scan_inv; simpl.
+  intros (Hl & Hp & Hd) Hc. destruct l as [p|v|g| |u|]; unfold scan_inv; simpl.
   - destruct (loads_prefs p) eqn:Elp; simpl.
     + repeat split; auto. intros _.
       apply loads_prefs_sound in Elp. rewrite Elp in Hc. rewrite andb_true_r in Hc.
@@ -47,6 +47,7 @@ Proof.
     + repeat split; auto.
   - repeat split; auto. simpl. rewrite Hl. reflexivity.
   - repeat split; auto. simpl. rewrite Hl. reflexivity.
+  - repeat split; auto.
   - repeat split; auto.
 Qed.
 
@@ -67,12 +68,13 @@ Lemma is_defined_sound_in_file : forall decl mmn always by_prefs pre e v,
   decl_right decl always by_prefs ->
   conditional_prefs_include sure0 pre = false ->
   possible_env always by_prefs pre e ->
+  in_strs v (su_undef (sure_after pre)) = false ->
   let cx := file_ctx decl mmn (scan (init_state false) pre) in
   is_defined (cx_seen_prefs cx) (cx_var cx v) = true -> e v <> None.
 Proof.
-  intros decl mmn always by_prefs pre e v Hd Hc He cx.
+  intros decl mmn always by_prefs pre e v Hd Hc He Hu cx.
   pose proof (scan_inv_all pre _ _ scan_inv_init Hc) as (_ & Hp & Hf).
-  destruct (He v) as (Ha & Hs & Hb). destruct (Hd v) as (Hd1 & Hd2).
+  destruct (He v Hu) as (Ha & Hs & Hb). destruct (Hd v) as (Hd1 & Hd2).
   unfold cx, file_ctx, is_defined, with_in_file; simpl.
   destruct (vi_always_in_scope (decl v) && vi_defined_if_in_scope (decl v)) eqn:E1.
   - intros _. apply Ha. apply Hd1. reflexivity.
@@ -108,33 +110,36 @@ Section InFile.
     In rw (simplify_word cx v mods fe neg) ->
     (exists pat, last mods [] = 77 :: pat) ->
     possible_env always by_prefs pre e ->
+    in_strs v (su_undef (sure_after pre)) = false ->
     exists f t, rw_from_c rw = Some f /\ rw_to_c rw = Some t /\
       ((forall d s, eval_expr e v (map classify_mod (removelast mods)) = Some (d, s) -> wordlike s) ->
        preserves e f t).
   Proof.
-    intros v mods fe neg rw e Hin Hm He.
+    intros v mods fe neg rw e Hin Hm He Hu.
     destruct (word_rewrite_M_preserves cx v mods fe neg rw e Hin Hm) as (f & t & Hf & Ht & H).
     exists f, t. repeat split; auto. intros Hw. apply H; auto.
-    apply (is_defined_sound_in_file decl mmn always by_prefs pre e v Hdecl Hcond He).
+    apply (is_defined_sound_in_file decl mmn always by_prefs pre e v Hdecl Hcond He Hu).
   Qed.
 
   Lemma yesno_sound_in_file : forall v mods fe neg rw e,
     In rw (fst (simplify_yesno cx v mods fe neg)) ->
     possible_env always by_prefs pre e ->
+    in_strs v (su_undef (sure_after pre)) = false ->
     exists f t, rw_from_c rw = Some f /\ rw_to_c rw = Some t /\
       ((vi_nonempty_if_defined (decl v) = true -> e v <> Some []) ->
        (forall d s, eval_expr e v (map classify_mod (removelast mods)) = Some (d, s) -> wordlike s) ->
        preserves e f t).
   Proof.
-    intros v mods fe neg rw e Hin He.
+    intros v mods fe neg rw e Hin He Hu.
     destruct (yesno_rewrite_preserves cx v mods fe neg rw e Hin) as (f & t & Hf & Ht & H).
     exists f, t. repeat split; auto. intros Hn Hw. apply H; auto.
-    apply (is_defined_sound_in_file decl mmn always by_prefs pre e v Hdecl Hcond He).
+    apply (is_defined_sound_in_file decl mmn always by_prefs pre e v Hdecl Hcond He Hu).
   Qed.
 
   Lemma match_sound_in_file : forall v mods fe neg rw e,
     In rw (simplify_match cx v mods fe neg) ->
     possible_env always by_prefs pre e ->
+    in_strs v (su_undef (sure_after pre)) = false ->
     exists f t pat, rw_from_c rw = Some f /\ rw_to_c rw = Some t /\ last mods [] = 77 :: pat /\
       (forall d s, eval_expr e v (map classify_mod (removelast mods)) = Some (d, s) ->
          clean s ->
@@ -142,10 +147,10 @@ Section InFile.
           forall w, w <> [] -> wordlike w -> str_match w pat = true -> try_parse_number w = None) ->
          equivalent e f t).
   Proof.
-    intros v mods fe neg rw e Hin He.
+    intros v mods fe neg rw e Hin He Hu.
     destruct (match_rewrite_equivalent_words cx v mods fe neg rw e Hin) as (f & t & pat & Hf & Ht & Hl & H).
     exists f, t, pat. repeat split; auto. apply H.
-    apply (is_defined_sound_in_file decl mmn always by_prefs pre e v Hdecl Hcond He).
+    apply (is_defined_sound_in_file decl mmn always by_prefs pre e v Hdecl Hcond He Hu).
     apply (simplify_match_defined cx v mods fe neg rw Hin).
   Qed.
 End InFile.
@@ -164,6 +169,7 @@ Definition word_in_file_full : Prop :=
     In rw (simplify_word (file_ctx decl mmn (scan (init_state false) pre)) v mods fe neg) ->
     (exists pat, last mods [] = 77 :: pat) ->
     possible_env always by_prefs pre e ->
+    in_strs v (su_undef (sure_after pre)) = false ->
     exists f t, rw_from_c rw = Some f /\ rw_to_c rw = Some t /\
       ((forall d s, eval_expr e v (map classify_mod (removelast mods)) = Some (d, s) -> wordlike s) ->
        preserves e f t).
@@ -183,7 +189,8 @@ Proof.
   - intros v. split; [discriminate | reflexivity].
   - rewrite Hl. left. reflexivity.
   - exists ex_alpha. reflexivity.
-  - intros v. repeat split; intros; discriminate.
+  - intros v _. repeat split; intros; discriminate.
+  - reflexivity.
   - rewrite Hf in Hf'. rewrite Ht in Ht'. injection Hf' as <-. injection Ht' as <-.
     assert (Hw : forall d s, eval_expr ex_undef_env ex_var (map classify_mod (removelast ex_Malpha_mods)) = Some (d, s) -> wordlike s).
     { intros d s. vm_compute. intros E. injection E as _ <-. apply wordlike_nil. }
@@ -203,6 +210,67 @@ Example in_file_example :
     rw_from_c rw = Some f /\ rw_to_c rw = Some t /\
     eval (env1 ex_var (Some ex_alpha)) f = Some TTrue /\ eval (env1 ex_var (Some ex_alpha)) t = Some TTrue).
 Proof. repeat split; try reflexivity. apply rewrite_values_sound. vm_compute. reflexivity. Qed.
+
+(* ---------- ... and without the guard "no .undef of the variable": V= x / .undef V / .if !empty(V:Malpha) ---------- *)
+Definition ex_undef_pre : list fline := [FAssign ex_var; FUndef ex_var].
+Definition ex_decl_U : str -> varinfo := fun _ => mkvarinfo true false false false false false true false.
+
+Definition word_in_file_undef_full : Prop :=
+  forall decl mmn always by_prefs pre v mods fe neg rw e,
+    decl_right decl always by_prefs ->
+    conditional_prefs_include sure0 pre = false ->
+    In rw (simplify_word (file_ctx decl mmn (scan (init_state false) pre)) v mods fe neg) ->
+    (exists pat, last mods [] = 77 :: pat) ->
+    possible_env always by_prefs pre e ->
+    exists f t, rw_from_c rw = Some f /\ rw_to_c rw = Some t /\
+      ((forall d s, eval_expr e v (map classify_mod (removelast mods)) = Some (d, s) -> wordlike s) ->
+       preserves e f t).
+
+Lemma undef_cex :
+  exists rw f t,
+    simplify_word (file_ctx ex_decl_U ex_mmn (scan (init_state false) ex_undef_pre)) ex_var ex_Malpha_mods true true = [rw] /\
+    rw_from_c rw = Some f /\ rw_to_c rw = Some t /\
+    eval ex_undef_env f = Some TFalse /\ eval ex_undef_env t = Some TMalformed.
+Proof. apply rewrite_values_sound. vm_compute. reflexivity. Qed.
+
+Theorem word_in_file_undef_full_refuted : ~ word_in_file_undef_full.
+Proof.
+  destruct undef_cex as (rw & f & t & Hl & Hf & Ht & Ef & Et). intros H.
+  destruct (H ex_decl_U ex_mmn (fun _ => false) (fun _ => false) ex_undef_pre ex_var ex_Malpha_mods true true rw ex_undef_env)
+    as (f' & t' & Hf' & Ht' & Hp).
+  - intros v. split; discriminate.
+  - reflexivity.
+  - rewrite Hl. left. reflexivity.
+  - exists ex_alpha. reflexivity.
+  - intros v Hu. repeat split; try (intros; discriminate).
+    intros Ha. change (su_assigned (sure_after ex_undef_pre)) with [ex_var] in Ha.
+    change (su_undef (sure_after ex_undef_pre)) with [ex_var] in Hu. congruence.
+  - rewrite Hf in Hf'. rewrite Ht in Ht'. injection Hf' as <-. injection Ht' as <-.
+    assert (Hw : forall d s, eval_expr ex_undef_env ex_var (map classify_mod (removelast ex_Malpha_mods)) = Some (d, s) -> wordlike s).
+    { intros d s. vm_compute. intros E. injection E as _ <-. apply wordlike_nil. }
+    destruct (Hp Hw TFalse Ef) as (r' & Hr & Heq). rewrite Et in Hr. injection Hr as <-.
+    specialize (Heq ltac:(discriminate)). discriminate.
+Qed.
+
+(* all hypotheses of the file-level theorems hold together, with isDefined = true *)
+Definition ex_decl_one : str -> varinfo := fun n =>
+  if str_eqb n ex_var then mkvarinfo true false false false true false true false
+  else mkvarinfo false false false false false false false false.
+Example in_file_hypotheses_satisfiable :
+  decl_right ex_decl_one (fun _ => false) (fun n => str_eqb n ex_var) /\
+  conditional_prefs_include sure0 ex_sure_pre = false /\
+  possible_env (fun _ => false) (fun n => str_eqb n ex_var) ex_sure_pre (env1 ex_var (Some ex_alpha)) /\
+  in_strs ex_var (su_undef (sure_after ex_sure_pre)) = false /\
+  is_defined (cx_seen_prefs (file_ctx ex_decl_one ex_mmn (scan (init_state false) ex_sure_pre)))
+             (cx_var (file_ctx ex_decl_one ex_mmn (scan (init_state false) ex_sure_pre)) ex_var) = true.
+Proof.
+  repeat split; try reflexivity.
+  - unfold ex_decl_one. destruct (str_eqb v ex_var); simpl; intros; discriminate.
+  - unfold ex_decl_one. destruct (str_eqb v ex_var); simpl; intros; [reflexivity|discriminate].
+  - discriminate.
+  - change (su_assigned (sure_after ex_sure_pre)) with (@nil str). discriminate.
+  - intros _ Hb. unfold env1. rewrite Hb. discriminate.
+Qed.
 
 (* a near miss leaves SeenPrefs alone: buildlink3.mk, builtin.mk, Makefile.common *)
 Example near_misses_do_not_load :
